@@ -39,7 +39,7 @@ Calls ==
   \cup { Call("set_code", [v |-> v]) : v \in { 0, 8, 64, 95, 255 } }
   \cup { Call("clear_option", [num |-> n]) : n \in { OPT_OBSERVE, OPT_URI_PATH, OPT_CONTENT_FORMAT } }
   \* the generic coap-message writer interface (the "api" field selects trait version 0.2 / 0.3 in the replay)
-  \cup { Call("t_set_code", [v |-> v, api |-> api]) : v \in { 2, 69 }, api \in { 2, 3 } }
+  \cup { Call("t_set_code", [v |-> v, api |-> api]) : v \in { 0, 2, 69 }, api \in { 2, 3 } }   \* 0 = Empty: a code like any other to the setter
   \cup { Call("t_add_option", [num |-> n, v |-> v, api |-> api]) : n \in { OPT_URI_PATH, 2049 }, v \in { << >>, << 98 >> }, api \in { 2, 3 } }
   \cup { Call("t_set_payload", [v |-> v, api |-> api]) : v \in { << >>, << 1, 2, 3 >> }, api \in { 2, 3 } }
   \cup { Call("t_payload_with_len", [n |-> n, api |-> api]) : n \in { 0, 2, 5 }, api \in { 2, 3 } }
